@@ -330,8 +330,10 @@ end
 /-- Stated, not proved: the diagram model consulting a cache meets the remaining fields of `CompC` (`ub`, `fresh`, `sound`
     of a relaxed compilation; the contract of an exact restricted compilation).  Proved: `theta`, `exact`, `cover` for relaxed
     compilations (`theta_contract_of_model`, `exact_contract_of_model`, `cover_contract_of_model`). -/
+/- superseded: proved in `Props/C09c.lean` (`compC_relaxed_of_model`, `compC_restricted_of_model`) -/
 def CompCRest : Prop := True
 /-- Stated, not proved: `processC_inv` without the best-first hypothesis `hbf` (arbitrary `SubProblemRanking`). -/
+/- superseded: decided in `Props/C09c.lean` — soundness holds (`caching_solver_anyorder_sound`), optimality is false (`anyOrderOpt_false`) -/
 def AnyOrder : Prop := True
 /-- Stated, not proved: the parallel solver with the cache (nodes in hand of other threads, interleaved updates). -/
 def Parallel : Prop := True
